@@ -257,6 +257,7 @@ fn second_opinion(
         })
     });
     let _ = ctx;
+    let arrays_in_script = text.contains("(Array ");
     let ops = crate::second::ask(&text).map_err(|m| Failure::new("harness/second-opinion/spawn", m))?;
     for o in ops {
         if o.timed_out {
@@ -281,6 +282,13 @@ fn second_opinion(
             return Err(bad("not-sat"));
         }
         if asked.is_empty() {
+            continue;
+        }
+        // z3's model evaluator compares arrays by their printed normal form: two arrays over a finite index
+        // sort (Bool) that agree everywhere but have different defaults evaluate as unequal. With arrays
+        // in the script only acceptance and `sat` are compared.
+        if arrays_in_script {
+            rec.label("second-opinion:acceptance-only(arrays)");
             continue;
         }
         let Some(pairs) = o.replies.get(1).and_then(|r| r.list()) else { return Err(bad("reply-shape")) };
